@@ -1,0 +1,64 @@
+//go:build verif
+
+// Machine-checked contracts for package p9p (comment-only; exists only under the
+// build tag "verif"). Read by /verif/engine (p9vc); see /verif/DESIGN.md.
+
+package p9p
+
+// ---------------------------------------------------------------- path.go (C16)
+
+//@ pure sep(s string) bool = strings.ContainsAny(s, "\\/")
+//@ pure okName(s string) bool = len(s) != 0 && s != "." && !sep(s)
+
+//@ func ValidPath
+//@ property C16
+//@ ensures range: result >= -1 && result <= len(args)
+//@ ensures valid: result >= 0 <==> (forall(j, 0, len(args), okName(args[j])) && forall(j, 0, len(args), args[j] == ".." ==> forall(m, 0, j, args[m] == "..")))
+//@ ensures lead: result >= 0 ==> forall(j, 0, result, args[j] == "..") && forall(j, result, len(args), args[j] != "..")
+//@ loop 1 invariant 0 <= n && n <= $done && $done <= len(args)
+//@ loop 1 invariant forall(j, 0, $done, okName(args[j]))
+//@ loop 1 invariant forall(j, 0, n, args[j] == "..") && forall(j, n, $done, args[j] != "..")
+
+// ---------------------------------------------------------------- transport.go (C05)
+
+//@ func allocateTag
+//@ property C05
+//@ ensures fresh: err == nil ==> result0 != NOTAG && !has(m, result0)
+//@ ensures unchanged: forall k Tag :: has(m, k) == old(has(m, k))
+//@ loop 1 invariant 0 <= i && i <= 65535
+//@ loop 1 decreases 65535 - i
+
+// ---------------------------------------------------------------- wire sizes (used by C02/C03/C10; proved against size9p under C01)
+
+//@ pure wireSize(f Fcall) int
+//@ axiom [wire] wireSize_range: forall f Fcall :: {wireSize(f)} 0 <= wireSize(f) && wireSize(f) < 4294967296
+//@ axiom [wire] wireSize_Twrite: forall f Fcall :: {wireSize(f)} typeis(f.Message, MessageTwrite) && len(f.Message.(MessageTwrite).Data) < 4294967296 - 19 ==> wireSize(f) == 19 + len(f.Message.(MessageTwrite).Data)
+//@ axiom [wire] wireSize_Tread: forall f Fcall :: {wireSize(f)} typeis(f.Message, MessageTread) ==> wireSize(f) == 19
+//@ axiom [wire] wireSize_Rread: forall f Fcall :: {wireSize(f)} typeis(f.Message, MessageRread) && len(f.Message.(MessageRread).Data) < 4294967296 - 7 ==> wireSize(f) == 7 + len(f.Message.(MessageRread).Data)
+
+//@ iface Codec.Size
+//@ params v
+//@ use wire
+//@ modifies nothing
+//@ ensures 0 <= result && result < 4294967296
+//@ ensures typeis(v, *Fcall) ==> result == wireSize(*v.(*Fcall))
+
+// ---------------------------------------------------------------- channel.go (C02 C03 C10)
+
+//@ func (*channel).maybeTruncate
+//@ property C02 C03 C10
+//@ use wire
+//@ let M0 = old(fcall.Message)
+//@ let D0 = old(fcall.Message.(MessageTwrite).Data)
+//@ let D1 = fcall.Message.(MessageTwrite).Data
+//@ let S0 = (4 + old(wireSize(*fcall)))
+//@ requires ch != nil && ch.codec != nil && fcall != nil && 24 <= ch.msize && ch.msize < 2147483648
+//@ requires typeis(fcall.Message, MessageTwrite) ==> len(fcall.Message.(MessageTwrite).Data) < 4294967296 - 23
+//@ ensures frame: fcall.Type == old(fcall.Type) && fcall.Tag == old(fcall.Tag) && ch.msize == old(ch.msize) && unchanged("E:uint8")
+//@ ensures fits: err == nil && !typeis(M0, MessageTread) ==> 4 + wireSize(*fcall) <= ch.msize
+//@ ensures twrite_prefix: typeis(M0, MessageTwrite) ==> err == nil && typeis(fcall.Message, MessageTwrite) && base(D1) == base(D0) && off(D1) == off(D0) && len(D1) <= len(D0) && fcall.Message.(MessageTwrite).Fid == old(fcall.Message.(MessageTwrite).Fid) && fcall.Message.(MessageTwrite).Offset == old(fcall.Message.(MessageTwrite).Offset)
+//@ ensures twrite_exact: typeis(M0, MessageTwrite) && S0 > ch.msize ==> 4 + wireSize(*fcall) == ch.msize
+//@ ensures twrite_whole: typeis(M0, MessageTwrite) && S0 <= ch.msize ==> fcall.Message == M0
+//@ ensures tread: typeis(M0, MessageTread) ==> err == nil && typeis(fcall.Message, MessageTread) && fcall.Message.(MessageTread).Count == min(old(fcall.Message.(MessageTread).Count), ch.msize - 11) && fcall.Message.(MessageTread).Fid == old(fcall.Message.(MessageTread).Fid) && fcall.Message.(MessageTread).Offset == old(fcall.Message.(MessageTread).Offset)
+//@ ensures other_ok: !typeis(M0, MessageTread) && !typeis(M0, MessageTwrite) ==> fcall.Message == M0 && (err == nil <==> S0 <= ch.msize)
+//@ ensures other_overflow: !typeis(M0, MessageTread) && !typeis(M0, MessageTwrite) && err != nil ==> typeis(err, overflowErr) && err.(overflowErr).size == S0 - ch.msize
